@@ -69,6 +69,15 @@ func derefType(rtype reflect.Type) reflect.Type {
 	return rtype
 }
 
+// Get rid of 0 to many levels of pointers to get at the real value. The
+// returned value is invalid if a nil pointer is found on the way.
+func derefValue(rvalue reflect.Value) reflect.Value {
+	for rvalue.IsValid() && rvalue.Kind() == reflect.Ptr {
+		rvalue = rvalue.Elem()
+	}
+	return rvalue
+}
+
 func doMatchMatches(expression *grammar.MatchExpression, value reflect.Value) (bool, error) {
 	if !value.IsValid() {
 		return false, fmt.Errorf("Cannot perform matches operations on a nil value for selector: %q", expression.Selector)
@@ -136,6 +145,10 @@ func doMatchIn(expression *grammar.MatchExpression, value reflect.Value) (bool, 
 			// type/kind and rederiving the match value.
 			for i := 0; i < value.Len(); i++ {
 				item := value.Index(i).Elem()
+				if !item.IsValid() {
+					// a nil element equals nothing
+					continue
+				}
 				itemType := derefType(item.Type())
 				kind := itemType.Kind()
 				// We need to special case errors here. The reason is that in an
@@ -160,7 +173,7 @@ func doMatchIn(expression *grammar.MatchExpression, value reflect.Value) (bool, 
 					return false, fmt.Errorf(`unable to find suitable primitive comparison function for "in" comparison in interface slice: %s`, kind)
 				}
 				// the value will be the correct type as we verified the itemType
-				if eqFn(matchValue, reflect.Indirect(item)) {
+				if elem := derefValue(item); elem.IsValid() && eqFn(matchValue, elem) {
 					return true, nil
 				}
 			}
@@ -181,7 +194,7 @@ func doMatchIn(expression *grammar.MatchExpression, value reflect.Value) (bool, 
 			for i := 0; i < value.Len(); i++ {
 				item := value.Index(i)
 				// the value will be the correct type as we verified the itemType
-				if eqFn(matchValue, reflect.Indirect(item)) {
+				if elem := derefValue(item); elem.IsValid() && eqFn(matchValue, elem) {
 					return true, nil
 				}
 			}
